@@ -49,6 +49,9 @@ fn main() {
                 usage();
             }
             engine::quiet_panics();
+            // safety net for the sandbox: a runaway allocation inside an in-process property aborts this
+            // process (the driver reports exit 2, inconclusive) instead of exhausting the machine
+            alloc::arm(usize::MAX, 24usize << 30);
             let id = static_id(&args[2]);
             let mut run = Run::new(id, tier_from_env(), seed_from_env());
             match props::registry(id) {
